@@ -216,6 +216,43 @@ Theorem C11_tiered_remove_requires_members :
   (forall j, j <> k -> scount j (t_mem w') = scount j (t_mem w)).
 Proof. exact t_exec_remove_effect. Qed.
 
+(* HasMember answers for the first stage whose window contains the instant (start <= now
+   <= end), true exactly when the address is stored for that stage *)
+Theorem C11_tiered_has_member_iff_stored_in_active_stage :
+  forall (valid : addr -> bool) now a w b,
+  tq_has valid now a w = Ok b ->
+  (b = true <-> exists k, active_index now 0 (t_stages w) = Some k /\ In (k, a) (tkeys (t_mem w))).
+Proof. exact tq_has_iff. Qed.
+
+(* add_stage: needs fewer than 3 stages; the new last stage holds exactly the listed
+   addresses; nothing else changes *)
+Theorem C11_tiered_add_stage_effect :
+  forall (valid : addr -> bool) self e s l w w' ms,
+  t_exec valid self e (TAddStage s l) w = Ok (w', ms) ->
+  NoDup (tkeys (t_mem w)) /\ t_num w = nlen (t_mem w) /\
+   (forall p, In p (t_mem w) -> e_stage p < nlen (t_stages w)) /\
+   (forall k, k < nlen (t_stages w) -> c_get k (t_cnt w) = scount k (t_mem w)) /\
+   t_num w <= t_limit w /\ t_limit w <= T_MAX_MEMBERS (t_flex w) /\ nlen (t_stages w) <= 3 ->
+  let n := nlen (t_stages w) in
+  t_stages w' = t_stages w ++ [s] /\ n < 3 /\
+  (forall x, In (n, x) (tkeys (t_mem w')) <-> In x (map fst l)) /\
+  (forall j, j <> n -> scount j (t_mem w') = scount j (t_mem w)) /\
+  (forall p, In p (t_mem w') -> In p (t_mem w) \/ e_stage p = n).
+Proof. exact t_exec_add_stage_effect. Qed.
+
+(* remove_stage k: stage k and all later stages go, together with exactly their members *)
+Theorem C11_tiered_remove_stage_effect :
+  forall (valid : addr -> bool) self e k w w' ms,
+  t_exec valid self e (TRemoveStage k) w = Ok (w', ms) ->
+  NoDup (tkeys (t_mem w)) /\ t_num w = nlen (t_mem w) /\
+   (forall p, In p (t_mem w) -> e_stage p < nlen (t_stages w)) /\
+   (forall k, k < nlen (t_stages w) -> c_get k (t_cnt w) = scount k (t_mem w)) /\
+   t_num w <= t_limit w /\ t_limit w <= T_MAX_MEMBERS (t_flex w) /\ nlen (t_stages w) <= 3 ->
+  k < nlen (t_stages w) /\ t_stages w' = firstn (N.to_nat k) (t_stages w) /\
+  (forall p, In p (t_mem w') <-> In p (t_mem w) /\ e_stage p < k) /\
+  t_num w' + nlen (t_range k (nlen (t_stages w)) (t_mem w)) = t_num w.
+Proof. exact t_exec_remove_stage_effect. Qed.
+
 (* fees: as for the plain whitelist *)
 Theorem C11_tiered_creation_fee_exact_and_forwarded :
   forall (valid : addr -> bool) self flex e m w ms,
@@ -358,6 +395,9 @@ Print Assumptions C11_tiered_is_member_iff_stored.
 Print Assumptions C11_tiered_has_member_only_stored.
 Print Assumptions C11_tiered_add_effect.
 Print Assumptions C11_tiered_remove_requires_members.
+Print Assumptions C11_tiered_has_member_iff_stored_in_active_stage.
+Print Assumptions C11_tiered_add_stage_effect.
+Print Assumptions C11_tiered_remove_stage_effect.
 Print Assumptions C11_tiered_creation_fee_exact_and_forwarded.
 Print Assumptions C11_tiered_call_fee_exact_and_forwarded.
 Print Assumptions C11_tiered_history_accounting.
